@@ -37,7 +37,7 @@ def execute(rules, skeleton, H, names, params):
     sd, rec = ops.apply_op(sd, {"op": "bfs"}, names)
     final = ops.dump_sd(sd, names, attractors=False)
     from biobalm import SuccessionDiagram
-    fresh = SuccessionDiagram.from_rules(rules)
+    fresh = hist.from_rules(rules)
     fresh.expand_bfs()
     return {"trace": trace, "final": final, "final_rec": {"ret": rec["ret"], "exc": rec["exc"]},
             "fresh": ops.dump_sd(fresh, names, attractors=False)}
@@ -86,6 +86,11 @@ def tasks(tier, seed, selftest=False):
             S.append(dict(family="D3", skeleton=sk, timebox=60))
         for sk in PLAIN:
             S.append(dict(family="U3", skeleton=(sk,), timebox=300, cube_k=4, nbits=24))
+    # inputs presented as free inputs (variables without update function): the cached percolated nets go through the
+    # update-is-None branches of percolate_network / network_to_petrinet
+    for sk in PLAIN:
+        S.append(dict(family="S1C2", skeleton=(sk,), timebox=8 if tier == "quick" else 600, tag="free-inputs", params={"free_inputs": True}))
+        S.append(dict(family="D3", skeleton=("succ", sk), timebox=8 if tier == "quick" else 600, tag="free-inputs", params={"free_inputs": True}))
     # a small (symbolic) max_motifs_per_node: a call may raise the documented limit error, but may never leave a node
     # expanded with a truncated successor list
     for sk in PLAIN:
